@@ -61,6 +61,25 @@ class Clock:
             self.advance(max(0.0, seconds))
 
 
+class DetUuid:
+    """Stand-in for the `uuid` module inside pynenc: uuid4() is a deterministic sequence, so that
+    set / dict iteration orders (which depend on the ids' hashes) are the same in every execution
+    of a scenario - a precondition for replaying schedules."""
+
+    def __init__(self, seed: int = 0) -> None:
+        import uuid as _uuid
+        self._mod = _uuid
+        self.seed = seed
+        self.n = 0
+        for k in dir(_uuid):
+            if not k.startswith("__") and k != "uuid4":
+                setattr(self, k, getattr(_uuid, k))
+
+    def uuid4(self) -> Any:
+        self.n += 1
+        return self._mod.UUID(int=((self.seed & 0xFFFFFFFF) << 96) | (0x4000 << 64) | (0x8000 << 48) | self.n)
+
+
 _current: Clock | None = None
 _patched: list[tuple[Any, str, Any]] = []
 
@@ -112,11 +131,13 @@ def _vsleep(s: float) -> None:
         _time.sleep(s)
 
 
-def install(clock: Clock, prefixes: tuple[str, ...] = ("pynenc", "pynmon")) -> int:
+def install(clock: Clock, prefixes: tuple[str, ...] = ("pynenc", "pynmon"), uuid_seed: int | None = None) -> int:
     """Patch every loaded module below `prefixes`; idempotent.  Returns #substitutions."""
     global _current
+    import uuid as _uuid_mod
     _current = clock
     tmod = _make_time_module(clock)
+    det = DetUuid(uuid_seed) if uuid_seed is not None else None
     n = 0
     for name, mod in list(sys.modules.items()):
         if mod is None or not (name in prefixes or name.startswith(tuple(p + "." for p in prefixes))):
@@ -131,6 +152,8 @@ def install(clock: Clock, prefixes: tuple[str, ...] = ("pynenc", "pynmon")) -> i
                 new = _vsleep
             elif val is _REAL_DATETIME:
                 new = VDateTime
+            elif det is not None and val is _uuid_mod:
+                new = det
             if new is not None:
                 _patched.append((mod, attr, val))
                 setattr(mod, attr, new)
